@@ -306,6 +306,7 @@ func c14Tables(c *h.Ctx, id string, a, b enc.Name) {
 	det := func() any { return map[string]any{"a": nameDesc(a), "b": nameDesc(b)} }
 	wa, wb := []byte("A:"+id), []byte("B:"+id)
 	var ga1, gb1, ga2, gb2 []byte
+	var ta1, tb1, ta2, tb2 []byte // the same through put-transactions (what Produce uses)
 	var trieSame, trieFound, delChecked, delAGone, delBKept bool
 	var va, vb int
 	if pi := h.Guard(func() {
@@ -317,6 +318,18 @@ func c14Tables(c *h.Ctx, id string, a, b enc.Name) {
 		st.Remove(a, false)
 		ga2, _ = st.Get(a, false)
 		gb2, _ = st.Get(b, false)
+		tx := object.NewMemoryStore()
+		_ = tx.Begin()
+		_ = tx.Put(a.Clone(), 1, wa)
+		_ = tx.Commit()
+		_ = tx.Begin()
+		_ = tx.Put(b.Clone(), 1, wb)
+		_ = tx.Commit()
+		ta1, _ = tx.Get(a, false)
+		tb1, _ = tx.Get(b, false)
+		_ = tx.Remove(a, false)
+		ta2, _ = tx.Get(a, false)
+		tb2, _ = tx.Get(b, false)
 		tr := basic.NewNameTrie[int]()
 		na := tr.MatchAlways(a.Clone())
 		na.SetValue(1)
@@ -348,10 +361,18 @@ func c14Tables(c *h.Ctx, id string, a, b enc.Name) {
 		if !bytes.Equal(ga1, wb) || !bytes.Equal(gb1, wb) || ga2 != nil || gb2 != nil {
 			c.Violation("C14:store-splits-equal-names", id, "memory store treats two equal names as different keys", det())
 		}
+		if !bytes.Equal(ta1, wb) || !bytes.Equal(tb1, wb) || ta2 != nil || tb2 != nil {
+			c.Violation("C14:store-splits-equal-names:transactions", id, "memory store (packets committed through put-transactions) treats two equal names as different keys", det())
+		}
 		if !trieSame {
 			c.Violation("C14:trie-splits-equal-names", id, "name trie has two nodes for equal names", det())
 		}
 		return
+	}
+	if !bytes.Equal(ta1, wa) || !bytes.Equal(tb1, wb) {
+		c.Violation("C14:store-conflates-names:transactions", id, fmt.Sprintf("memory store: after committing Put(a,A) and Put(b,B) in two transactions with a != b, Get(a)=%q Get(b)=%q", ta1, tb1), det())
+	} else if ta2 != nil || !bytes.Equal(tb2, wb) {
+		c.Violation("C14:store-conflates-names:transactions", id, fmt.Sprintf("memory store (transactions): after Remove(a) with a != b, Get(a)=%q Get(b)=%q", ta2, tb2), det())
 	}
 	if !bytes.Equal(ga1, wa) || !bytes.Equal(gb1, wb) {
 		c.Violation("C14:store-conflates-names", id, fmt.Sprintf("memory store: after Put(a,A) Put(b,B) with a != b, Get(a)=%q Get(b)=%q", ga1, gb1), det())
